@@ -169,6 +169,26 @@ func raceSignature(report string) (string, bool) {
 			return "reader-side-reportError", true
 		}
 	}
+	// The same root cause seen from its other end: the error value (or the end it was wrapped in) that
+	// the reader goroutine created and handed over through reportError is read by the goroutine that
+	// uses the responseWriter (Write -> WriteHeader -> flushHeaders -> writeEnd -> encodeEnd).
+	readerSide, writerSide := false, false
+	for _, sec := range strings.Split(report, "\n\n") {
+		if !(strings.Contains(sec, "Read at") || strings.Contains(sec, "Write at") || strings.Contains(sec, "read at") || strings.Contains(sec, "write at")) {
+			continue
+		}
+		isReader := strings.Contains(sec, "readRequestMessage") || strings.Contains(sec, "Reader).Read") || strings.Contains(sec, "Reader).prepareNext") || strings.Contains(sec, "processRequestEnvelope")
+		isWriter := strings.Contains(sec, "(*responseWriter).Write") || strings.Contains(sec, "(*responseWriter).WriteHeader") || strings.Contains(sec, "(*responseWriter).flushHeaders") || strings.Contains(sec, "(*responseWriter).writeEnd") || strings.Contains(sec, "(*responseWriter).Flush")
+		if isReader && !isWriter {
+			readerSide = true
+		}
+		if isWriter && !isReader {
+			writerSide = true
+		}
+	}
+	if readerSide && writerSide {
+		return "reader-side-reportError", true
+	}
 	parts := regexp.MustCompile(`(?m)^(Previous|Read|Write|Goroutine)`).Split(report, -1)
 	var sites []string
 	for _, p := range parts {
